@@ -24,9 +24,9 @@ Proof. vm_compute. reflexivity. Qed.
    the recurrences do not reach (printed below as VUnchecked; they are compared numerically) *)
 Theorem cases_sound : forall (p x y : R) (vals : basis -> R) (Tf : Z -> Z -> Z -> R),
   p <> 0%R -> x <> 0%R -> y <> 0%R ->
-  (forall k, Tf 0 0 k = vals (BV (k - 2))) ->
-  (forall j k, 2 <= j -> Tf 0 j k = (Tf 0%Z (j - 2)%Z k - IZR (2 * j - 1) / (2 * y) * Tf 0%Z (j - 1)%Z (k - 1)%Z)%R) ->
-  (forall i j k, 1 <= i -> 1 <= j ->
+  (forall k, 1 <= k -> Tf 0 0 k = vals (BV (k - 2))) ->
+  (forall j k, 2 <= j -> 2 <= k -> Tf 0 j k = (Tf 0%Z (j - 2)%Z k - IZR (2 * j - 1) / (2 * y) * Tf 0%Z (j - 1)%Z (k - 1)%Z)%R) ->
+  (forall i j k, 1 <= i -> 1 <= j -> 2 <= k ->
      Tf i j k = (IZR (2 + j - i - k) / (2 * x) * Tf (i - 1)%Z j (k - 1)%Z - y / x * Tf (i - 1)%Z (j - 1)%Z k + p / x * Tf (i - 1)%Z j (k + 1)%Z)%R) ->
   (forall i j k l, 0 <= j < 100 -> 0 <= k < 100 -> check_case cases (key_of i j k) = VUnchecked ->
      lookup cases i j k = Some l -> elc p x y vals l = Tf i j k) ->
